@@ -100,7 +100,6 @@ def eval_basis(model, case):
     basis = [XShell.from_json(s) for s in case["basis"]]
     tols = [parse_tol(t) for t in case["tols"]]
     n = len(basis)
-    gb = [s.to_gbasis() for s in basis]
     off = [0]
     for s in basis:
         off.append(off[-1] + s.nfun())
@@ -116,6 +115,9 @@ def eval_basis(model, case):
     def out(detail, nontrivial=True):
         return {"detail": detail, "nontrivial": nontrivial, "tag": tag, "stats": stats}
 
+    st, gb = call_impl(lambda: [s.to_gbasis() for s in basis])
+    if st != "ok":
+        return out({"kind": "rejected", "impl": gb, "call": "GeneralizedContractionShell(...)"})
     # (iii) no tolerance == default == unscreened model
     st, r0 = call_impl(overlap_integral, gb)
     st2, r0b = call_impl(overlap_integral, gb, tol_screen=None)
@@ -283,7 +285,6 @@ def eval_block(model, case):
     from gbasis.integrals.overlap import Overlap
 
     sa, sb = XShell.from_json(case["a"]), XShell.from_json(case["b"])
-    ga, gb_ = sa.to_gbasis(), sb.to_gbasis()
     tag = "%s block l=%d,%d" % (case.get("stream", "rand"), sa.l, sb.l)
     premise = False
     seen = set()
@@ -292,6 +293,10 @@ def eval_block(model, case):
     def out(detail, nontrivial=True):
         return {"detail": detail, "nontrivial": nontrivial, "tag": tag, "stats": stats}
 
+    st, gg = call_impl(lambda: (sa.to_gbasis(), sb.to_gbasis()))
+    if st != "ok":
+        return out({"kind": "rejected", "impl": gg, "call": "GeneralizedContractionShell(...)"})
+    ga, gb_ = gg
     st, r0 = call_impl(Overlap.construct_array_contraction, ga, gb_)
     if st != "ok":
         return out({"kind": "rejected", "impl": r0})
@@ -349,7 +354,10 @@ def eval_bool(model, case):
     from gbasis.integrals.overlap import Overlap, overlap_integral
 
     basis = [XShell.from_json(s) for s in case["basis"]]
-    gb = [s.to_gbasis() for s in basis]
+    tag = "bool %s" % case["call"]
+    st, gb = call_impl(lambda: [s.to_gbasis() for s in basis])
+    if st != "ok":
+        return {"detail": {"kind": "rejected", "impl": gb, "call": "GeneralizedContractionShell(...)"}, "tag": tag}
     val = bool(case["value"])
     if case["call"] == "integral":
         st, r = call_impl(overlap_integral, gb, tol_screen=val)
@@ -358,7 +366,7 @@ def eval_bool(model, case):
     d = None
     if st == "ok":
         d = {"kind": "accepted", "impl": "tol_screen=%r was accepted (a value was returned)" % val, "model": "rejected"}
-    return {"detail": d, "nontrivial": True, "tag": "bool %s" % case["call"]}
+    return {"detail": d, "nontrivial": True, "tag": tag}
 
 
 def eval_case(model, case):
